@@ -1,11 +1,16 @@
 #!/bin/bash
-# seedcheck.sh <name> <prop> [<prop>...] : apply /verif/seeded/<name>/patch.diff to /repo, run the quick checks, undo.
+# seedcheck.sh <name> <prop> [<prop>...] : try the seeded change /verif/seeded/<name>/patch.diff in a scratch worktree
+# of /repo's HEAD (never in /repo itself) and run the quick checks against it.
 NAME="$1"; shift
-cd /repo || exit 2
-if [ -n "$(git status --porcelain)" ]; then echo "/repo not clean"; exit 2; fi
-git apply /verif/seeded/$NAME/patch.diff || { echo "apply failed"; exit 2; }
+WT=/tmp/sw/wt_$NAME
+mkdir -p /tmp/sw
+git -C /repo worktree prune
+rm -rf "$WT"
+git -C /repo worktree add -q --detach "$WT" HEAD || exit 2
+( cd "$WT" && git apply /verif/seeded/$NAME/patch.diff ) || { echo "SEEDCHECK $NAME: apply failed"; git -C /repo worktree remove --force "$WT"; exit 2; }
 for P in "$@"; do
-  cd /verif && ./check $P > /tmp/sw/$NAME.$P.check.out 2>&1; RC=$?
-  echo "SEEDCHECK $NAME $P rc=$RC $(grep -c '^VIOLATION' /tmp/sw/$NAME.$P.check.out) violations; $(grep -m1 -A1 '^VIOLATION' /tmp/sw/$NAME.$P.check.out | tail -1 | cut -c1-200)"
+  cd /verif && VERIF_REPO="$WT" VERIF_WORKROOT=/tmp/sw/work_$NAME VERIF_EVIDENCE_DIR=/tmp/sw/ev_$NAME ./check $P > /tmp/sw/$NAME.$P.check.out 2>&1; RC=$?
+  echo "SEEDCHECK $NAME $P rc=$RC $(grep -c '^VIOLATION' /tmp/sw/$NAME.$P.check.out) violations; $(grep -m1 -A1 '^VIOLATION' /tmp/sw/$NAME.$P.check.out | tail -1 | cut -c1-220)"
 done
-git -C /repo checkout -- . 
+git -C /repo worktree remove --force "$WT"
+rm -rf /tmp/sw/work_$NAME /tmp/sw/ev_$NAME
